@@ -350,3 +350,23 @@ Proof.
   induction h as [|o h IH]; intros s H; [exact H|]. simpl. apply IH. now apply dname_step.
 Qed.
 
+(* ------------------------------------------------------------------ an interrupted call IS a program that stops ticking *)
+(* in the micro-step machine, thread (thr o) begins o, executes k acts and stalls: the machine holds exactly `abort R c b o k` *)
+Lemma mrun_fst_cons c m e s : fst (mrun c m (e :: s)) = fst (mrun c (fst (mstep c m e)) s).
+Proof. simpl. destruct (mstep c m e) as [m1 l1]. simpl. destruct (mrun c m1 s). reflexivity. Qed.
+
+Lemma mrun_ticks c t : forall k m,
+  m_b (fst (mrun c m (ticks_of t k))) = bblock c (m_b m) (t, firstn k (map fst (m_pend m t))).
+Proof.
+  induction k as [|k IH]; intros m; [reflexivity|].
+  unfold ticks_of. simpl repeat. rewrite mrun_fst_cons. fold (ticks_of t k). rewrite IH.
+  simpl mstep. destruct (m_pend m t) as [|[a lp] rest] eqn:E.
+  - simpl. rewrite E. simpl. now rewrite firstn_nil.
+  - destruct lp; simpl; rewrite upd_same; reflexivity.
+Qed.
+
+Theorem abort_is_stalled_program R c b o k :
+  m_b (fst (mrun c (mquiet b) (Begin (thr o) (compile R c (b_priv b (thr o)) o) :: ticks_of (thr o) k))) = abort R c b o k.
+Proof.
+  rewrite mrun_fst_cons, mrun_ticks. unfold abort, acts_of. simpl. rewrite upd_same. reflexivity.
+Qed.
